@@ -15,6 +15,7 @@
 package netpoll
 
 import (
+	"unsafe"
 	"runtime"
 	"sync/atomic"
 )
@@ -53,6 +54,7 @@ type FDOperator struct {
 }
 
 func (op *FDOperator) Control(event PollEvent) error {
+	vp(vpOpControl, unsafe.Pointer(op), int64(event), 0)
 	if event == PollDetach && atomic.AddInt32(&op.detached, 1) > 1 {
 		return nil
 	}
@@ -64,27 +66,33 @@ func (op *FDOperator) Free() {
 }
 
 func (op *FDOperator) do() (can bool) {
+	vp(vpOpDo, unsafe.Pointer(op), 0, 0)
 	return atomic.CompareAndSwapInt32(&op.state, 1, 2)
 }
 
 func (op *FDOperator) done() {
+	vp(vpOpDone, unsafe.Pointer(op), 0, 0)
 	atomic.StoreInt32(&op.state, 1)
 }
 
 func (op *FDOperator) inuse() {
+	vp(vpOpInuseSpin, unsafe.Pointer(op), 0, 0)
 	for !atomic.CompareAndSwapInt32(&op.state, 0, 1) {
 		if atomic.LoadInt32(&op.state) == 1 {
 			return
 		}
+		vp(vpOpInuseSpin, unsafe.Pointer(op), 0, 1)
 		runtime.Gosched()
 	}
 }
 
 func (op *FDOperator) unused() {
+	vp(vpOpUnusedSpin, unsafe.Pointer(op), 0, 0)
 	for !atomic.CompareAndSwapInt32(&op.state, 1, 0) {
 		if atomic.LoadInt32(&op.state) == 0 {
 			return
 		}
+		vp(vpOpUnusedSpin, unsafe.Pointer(op), 0, 1)
 		runtime.Gosched()
 	}
 }
@@ -94,6 +102,7 @@ func (op *FDOperator) isUnused() bool {
 }
 
 func (op *FDOperator) reset() {
+	vp(vpOpReset, unsafe.Pointer(op), int64(op.FD), 0)
 	op.FD = 0
 	op.OnRead, op.OnWrite, op.OnHup = nil, nil, nil
 	op.Inputs, op.InputAck = nil, nil
